@@ -123,6 +123,15 @@ fn home_property(op: &Op) -> &'static str {
     }
 }
 
+/// an append/insert on an inline string whose result still fits the inline storage
+fn model_after_fits_inline(op: &Op, r: &Resolved, pre: Option<&str>) -> bool {
+    let Some(pre) = pre else { return false };
+    match additional_of(op, r) {
+        Some(a) if !matches!(op, Op::Reserve { .. }) => pre.len() + a <= 16,
+        _ => false,
+    }
+}
+
 fn listed_short_route(op: &Op) -> Option<usize> {
     // constructors named by C09's statement; returns the byte length of the text
     match op {
@@ -254,6 +263,18 @@ impl World {
             f.push(Failure::new(&format!("C03.{}", v.clause), v.detail.clone()));
         }
         ctx.class(format!("outcome.{}", real.class()));
+        ctx.eval("C03.inline_overflow");
+        if let Some(i) = self.slots.damaged() {
+            for c in ["C03.inline_overflow", "C01.inline_overflow"] {
+                f.push(Failure::new(c, format!("{} wrote past the 16 bytes of the handle in slot {i} (memory behind the inline buffer was modified)", op.name())));
+            }
+            if pre_t.as_ref().is_some_and(|p| p.kind == Kind::Static) {
+                f.push(Failure::new("C10.inline_overflow", format!("{} on a static string wrote past the handle's inline storage", op.name())));
+            }
+            self.slots.repair();
+            self.alias_context(&mut f, ctx, false);
+            return StepResult { failures: f, fatal: true, outcome: real };
+        }
 
         // ---- decide what the model does
         let mut fatal = false;
@@ -503,7 +524,14 @@ impl World {
                 }
             }
             Outcome::Panic(PanicKind::Other, msg) => {
-                for c in ["C01.unexpected_panic".to_string(), format!("{}.unexpected_panic", home_property(op))] {
+                let mut cs = vec!["C01.unexpected_panic".to_string(), format!("{}.unexpected_panic", home_property(op))];
+                if pre_t.as_ref().is_some_and(|p| p.kind == Kind::Static) {
+                    cs.push("C10.unexpected_panic".to_string());
+                }
+                if pre_t.as_ref().is_some_and(|p| p.kind == Kind::Inline) && model_after_fits_inline(op, &r, pre_model_t.as_deref()) {
+                    cs.push("C09.unexpected_panic".to_string());
+                }
+                for c in cs {
                     f.push(Failure::new(&c, format!("{} panicked unexpectedly: {msg}", op.name())));
                 }
                 fatal = true;
@@ -572,6 +600,12 @@ impl World {
                             f.push(Failure::new(
                                 "C02.text",
                                 format!("slot {i} is not the target of {} but its text changed to {:?} (expected {:?})", op.name(), text, m),
+                            ));
+                        }
+                        if pre[i].as_ref().is_some_and(|p| p.kind == Kind::Static) || o.kind == Kind::Static {
+                            f.push(Failure::new(
+                                "C10.contents",
+                                format!("slot {i} (a handle of a static text) after {}: reads {:?}, expected {:?}", op.name(), text, m),
                             ));
                         }
                         fatal = true;
@@ -645,7 +679,6 @@ impl World {
                         "C03.refcount",
                         format!("buffer {ptr:#x}: {n} live handle(s) but the reference count reads {:?} after {}", rcs, op.name()),
                     ));
-                    fatal = true;
                 }
                 if *n >= 2 {
                     ctx.was_shared.insert(*ptr);
@@ -665,7 +698,6 @@ impl World {
                         "C03.orphan_block",
                         format!("a {size}-byte block is still allocated after {} but no live handle points into it (leak)", op.name()),
                     ));
-                    fatal = true;
                 }
             }
             for e in &events {
